@@ -290,6 +290,16 @@ class Impl:
                 w._handle_object_update(self.msg_full(*e[1:]))
             elif k == "D":
                 w._handle_object_update(self.msg_double(*e[1:]))
+            elif k == "B":
+                # ONE ObjectUpdate packet carrying several ObjectData blocks (applied in wire order)
+                import copy as _copy
+                subs = [tuple(e[2 + 6 * i:8 + 6 * i]) for i in range(e[1])]
+                m = _copy.deepcopy(self.msg_full(*subs[0]))
+                m["ObjectData"]
+                for sub in subs[1:]:
+                    m2 = _copy.deepcopy(self.msg_full(*sub))
+                    m.blocks["ObjectData"].append(m2["ObjectData"][0])
+                w._handle_object_update(m)
             elif k == "C":
                 w._handle_object_update_compressed(self.msg_compressed(*e[1:]))
             elif k == "T":
@@ -616,6 +626,51 @@ def check_futures(impl, e):
     return None
 
 
+def suite_multiblock(ctx, loop):
+    """ObjectUpdate packets with SEVERAL ObjectData blocks: the blocks are applied in wire order (the same object announced twice,
+    a local id handed on inside one packet, a child before or after its parent).  Impl-level oracle: the statement's clauses
+    (Idx, Tree, orphans) and the reference set after every packet; the model sees such packets as their blocks in sequence."""
+    res = CorrResult(suite="multi-block ObjectUpdate packets: blocks applied in wire order (impl-level oracle)",
+                     rule="region 1 tracked, then 1..2 packets of 2..3 blocks over local ids 1..3, full ids 1..3, parent ids 0..3 "
+                          "(exhaustive for the first packet of two blocks, random beyond), optionally followed by a kill; packets whose "
+                          "blocks, applied in order, leave the statement's assumptions are left out; after every packet: lookups agree, "
+                          "children/parents/orphans as stated, tracked set = reference set")
+    import itertools
+    rng = ctx.rng
+    blocks = [(1, l, f, p, 0, 1) for l in (1, 2, 3) for f in (1, 2, 3) for p in (0, 1, 2, 3) if p != l]
+    hists = []
+    for b1, b2 in itertools.product(blocks, repeat=2):
+        hists.append([("R", 1), ("B", 2) + b1 + b2])
+    for _ in range(ctx.pick(1500, 20000)):
+        h = [("R", 1)]
+        for _k in range(rng.choice((1, 2, 2))):
+            n = rng.choice((2, 2, 3))
+            bs = [rng.choice(blocks) for _j in range(n)]
+            h.append(("B", n) + tuple(x for b in bs for x in b))
+            if rng.random() < 0.3:
+                h.append(("K", 1, rng.choice((1, 2, 3))))
+        hists.append(h)
+    n = nt = 0
+    seen = set()
+    for h in hists:
+        v, _ = check_history(h, loop)
+        if v and v.get("class") == "harness":
+            continue
+        n += 1
+        if any(e[0] == "B" and len({e[3 + 6 * j] for j in range(e[1])}) < e[1] for e in h):
+            nt += 1         # the same full id twice in one packet
+        if v:
+            cls = v.get("class") or "multiblock-" + v["clause"][:40]
+            if cls not in seen and len(seen) < 4:
+                seen.add(cls)
+                v["class"] = cls
+                v["kind"] = "multiblock"
+                res.impl_violations.append(v)
+    res.evaluations = n
+    res.distinct_nontrivial = nt
+    return res
+
+
 def check_history(hist, loop, want_obs=False, yield_every=1):
     """Impl-level oracle: run the history, evaluate the statement after every step.
     Returns (violation dict or None, observations).
@@ -630,7 +685,21 @@ def check_history(hist, loop, want_obs=False, yield_every=1):
         errs = []
         lp.set_exception_handler(lambda _l, c: errs.append(c))
         for i, e in enumerate(hist):
-            if not spec.input_ok(e):
+            subs = [("F",) + tuple(e[2 + 6 * j:8 + 6 * j]) for j in range(e[1])] if e[0] == "B" else None
+            if subs is not None:
+                import copy as _copy
+                sc = _copy.deepcopy(spec)
+                okb = True
+                for sub in subs:
+                    if not sc.input_ok(sub):
+                        okb = False
+                        break
+                    sc.step(sub)
+                if not okb:
+                    res["v"] = {"clause": "generator produced an input outside the statement's assumption", "step": i,
+                                "history": hist_str(hist), "class": "harness"}
+                    break
+            elif not spec.input_ok(e):
                 res["v"] = {"clause": "generator produced an input outside the statement's assumption", "step": i,
                             "history": hist_str(hist), "class": "harness"}
                 break
@@ -645,7 +714,17 @@ def check_history(hist, loop, want_obs=False, yield_every=1):
                 res["v"] = {"clause": "no handler raises", "step": i, "event": ev_str(e), "exc": r,
                             "history": hist_str(hist[:i + 1])}
                 break
-            spec.step(e)
+            if subs is not None:
+                for sub in subs:
+                    spec.step(sub)
+                if spec.observe() != impl_ref_observe(impl):
+                    res["v"] = {"clause": "the lookups contain exactly the objects announced and not since killed or unloaded, where they were "
+                                          "last announced (blocks of one packet are applied in wire order)", "class": "reference-set",
+                                "detail": "reference %s ; implementation %s" % (spec.observe()[:300], impl_ref_observe(impl)[:300]),
+                                "step": i, "event": ev_str(e), "history": hist_str(hist[:i + 1])}
+                    break
+            else:
+                spec.step(e)
             if want_obs:
                 res["obs"].append(impl.observe())
                 res["ref"].append((spec.observe(), impl_ref_observe(impl)))
@@ -955,7 +1034,8 @@ def _loop():
 def correspond(ctx):
     loop = _loop()
     try:
-        return _correspond(ctx, loop)
+        r = _correspond(ctx, loop)
+        return (r if isinstance(r, list) else [r]) + [suite_multiblock(ctx, loop)]
     finally:
         loop.close()
 
